@@ -29,8 +29,8 @@ func validateConfig(cfg ElectionConfig) error {
 				cfg.TTL, cfg.HeartbeatInterval, minTTL))
 	}
 
-	// Check ValidationInterval (if set)
-	if cfg.ValidationInterval > 0 {
+	// Check ValidationInterval (if set; 0 keeps the default, negative values are invalid)
+	if cfg.ValidationInterval != 0 {
 		if cfg.ValidationInterval < cfg.HeartbeatInterval {
 			return NewValidationError("ValidationInterval", cfg.ValidationInterval,
 				fmt.Sprintf("validation interval (%v) should be >= HeartbeatInterval (%v)",
@@ -38,7 +38,8 @@ func validateConfig(cfg ElectionConfig) error {
 		}
 	}
 
-	if cfg.DisconnectGracePeriod > 0 {
+	// 0 selects the default; a negative grace period would demote at once on disconnect
+	if cfg.DisconnectGracePeriod != 0 {
 		minGracePeriod := cfg.HeartbeatInterval * 2
 		if cfg.DisconnectGracePeriod < minGracePeriod {
 			return NewValidationError("DisconnectGracePeriod", cfg.DisconnectGracePeriod,
